@@ -82,6 +82,53 @@ Theorem c14_dns_client_close_without_queue_close_refuted : forall hs ops, Forall
   c_comm c = true /\ q_parked (c_in c) = Some 4.
 Proof. exact client_close_leaves_queue_refuted. Qed.
 
+(* -- the same for a writer parked in Write (waitEmptyQueue: waiting for the acknowledgement of what is queued) *)
+
+(* In every reachable state an end that is closed has no writer parked on it: whichever operation closed it released the writer in the same step. *)
+Theorem c14_dns_writer_released_client : forall c o, reach c -> o_parked (c_out c) <> None -> c_comm (fst (step code_shape c o)) = true ->
+  o_parked (c_out (fst (step code_shape c o))) = None.
+Proof.
+  intros c o R _ C. rewrite code_shape_intended in *. apply client_closed_no_writer; [apply reach_step, R|exact C].
+Qed.
+Theorem c14_dns_writer_released_server : forall c o, reach c -> o_parked (s_out c) <> None -> live (s_slot (fst (step code_shape c o))) = false ->
+  o_parked (s_out (fst (step code_shape c o))) = None.
+Proof.
+  intros c o R _ L. rewrite code_shape_intended in *. apply server_closed_no_writer; [apply reach_step, R|exact L].
+Qed.
+(* OutQueue.Close makes the parked writer return (it does not park again), leaves none parked, leaves the queue closed. *)
+Theorem c14_dns_out_queue_close_releases : forall o, o_parked o <> None ->
+  (exists r, snd (o_close o) = Some r /\ forall b, r <> WBlock b) /\ o_parked (fst (o_close o)) = None /\ o_closed (fst (o_close o)) = true.
+Proof. intros o P. split; [apply o_close_releases, P|]. split; [apply o_close_parked|apply o_close_closed]. Qed.
+Example c14_dns_writer_released_example :
+  let c := fst (run code_shape (init_conn false []) [OSWrite [1; 2; 3; 4; 5]%N; OSRead 8; OCOutWrite [1]%N false; OCOutWrite [2]%N true]) in
+  o_parked (s_out c) = Some (WFinal 5) /\ o_parked (c_out c) = Some (WEntry [2]%N (Some true)) /\
+  snd (step code_shape c OSClose) = [ODone; OWoke false REof; OWWoke false (WClosed 5)] /\
+  snd (step code_shape c OExpire) = [ODone; OWoke false REof; OWWoke false (WClosed 5)] /\
+  snd (step code_shape c OCClose) = [ODone; OWWoke true (WClosed 0)].
+Proof. vm_compute. repeat split. Qed.
+
+(* The code before the repair (no out-queue is ever closed): a writer waiting for its acknowledgement on the server-side connection stays
+   parked for ever when the session is closed by the application or by the client's request, or retired by the sweep - for EVERY handshake
+   state, path script and continuation; on the client a Write parked behind an unacknowledged chunk stays parked after Close for every
+   continuation in which nothing acknowledges that chunk (the closed client's poll goroutine has ended). *)
+Theorem c14_dns_close_connection_without_out_queue_close_refuted : forall hs fs ops,
+  let c := fst (run no_out_queue_close (init_conn hs fs) ([OSWrite [1; 2; 3; 4; 5]%N; OSClose] ++ ops)) in
+  s_closed c = true /\ live (s_slot c) = false /\ o_parked (s_out c) = Some (WFinal 5).
+Proof. exact close_connection_leaves_writer_parked. Qed.
+Theorem c14_dns_sweep_without_out_queue_close_refuted : forall hs fs ops,
+  let c := fst (run no_out_queue_close (init_conn hs fs) ([OSWrite [1; 2; 3; 4; 5]%N; OExpire] ++ ops)) in
+  live (s_slot c) = false /\ o_parked (s_out c) = Some (WFinal 5).
+Proof. exact sweep_leaves_writer_parked. Qed.
+Theorem c14_dns_client_close_without_out_queue_close_refuted : forall hs ops, Forall not_client_ack ops ->
+  let c := fst (run no_out_queue_close (init_conn hs []) ([OCOutWrite [1]%N false; OCOutWrite [2; 3]%N true; OCClose] ++ ops)) in
+  c_comm c = true /\ o_parked (c_out c) = Some (WEntry [2; 3]%N (Some true)).
+Proof. exact client_close_leaves_writer_parked. Qed.
+
+Theorem c14_dns_out_queue_close_source_facts :
+  Gen.CloseShape.client_close_closes_out_queue = true /\ Gen.CloseShape.close_connection_closes_out_queue = true /\
+  Gen.CloseShape.sweep_closes_out_queue = true /\ Gen.CloseShape.out_queue_close_as_modelled = true.
+Proof. repeat split; reflexivity. Qed.
+
 Theorem c14_dns_close_source_facts :
   Gen.CloseShape.client_close_closes_in_queue = true /\ Gen.CloseShape.close_connection_closes_in_queue = true /\
   Gen.CloseShape.sweep_closes_in_queue = true /\
@@ -95,3 +142,10 @@ Print Assumptions c14_dns_close_connection_without_queue_close_refuted.
 Print Assumptions c14_dns_sweep_without_queue_close_refuted.
 Print Assumptions c14_dns_client_close_without_queue_close_refuted.
 Print Assumptions c14_dns_close_source_facts.
+Print Assumptions c14_dns_writer_released_client.
+Print Assumptions c14_dns_writer_released_server.
+Print Assumptions c14_dns_out_queue_close_releases.
+Print Assumptions c14_dns_close_connection_without_out_queue_close_refuted.
+Print Assumptions c14_dns_sweep_without_out_queue_close_refuted.
+Print Assumptions c14_dns_client_close_without_out_queue_close_refuted.
+Print Assumptions c14_dns_out_queue_close_source_facts.
